@@ -26,6 +26,10 @@ type c01Msg struct {
 	NextSize   int      `json:"next_size"` // packet size the server announces after this message (0 = unchanged)
 	// OnZero: in plans that use both channels, send this message on channel 0 instead of the logical channel.
 	OnZero bool `json:"on_zero,omitempty"`
+	// Abort > 0: before this message a package of Abort bytes (less than a packet body, so nothing is sent yet)
+	// is queued on the same channel and flushed with an already cancelled context; the flush must fail, write
+	// nothing, and leave nothing behind for the message proper.
+	Abort int `json:"abort,omitempty"`
 }
 
 type c01Plan struct {
@@ -48,7 +52,7 @@ func (c01) NRuns(tier string) int {
 	return 3000
 }
 func (c01) Rule() string {
-	return "1..4 successive messages on channel 0 or a logical channel; a message is 1..5 packages (raw byte packages of any length, language and done packages) whose total length is m*(packetSize-8)+d with m in 0..3 and d in {-2..+2} half of the time (uniform otherwise), split so that package ends also fall on packet ends; header type 1..23; call split queue-all / last-by-SendPackage / single SendPackage; the peer announces a new packet size (256, 257, 511, 512, 513, 1024, 4096, 32768, 65535 or uniform) between messages; the peer's wire record is parsed by an independent header codec; non-trivial = message longer than one packet body or a size change took effect; distinct = distinct (packet size, boundary class d, m, split, channel kind)"
+	return "1..4 successive messages on channel 0 or a logical channel; a message is 1..5 packages (raw byte packages of any length, language and done packages) whose total length is m*(packetSize-8)+d with m in 0..3 and d in {-2..+2} half of the time (uniform otherwise), split so that package ends also fall on packet ends; header type 1..23; call split queue-all / last-by-SendPackage / single SendPackage; 15% of the messages are preceded by an abandoned one (a partial packet queued, then flushed with a cancelled context: must fail and leave nothing behind); the peer announces a new packet size (256, 257, 511, 512, 513, 1024, 4096, 32768, 65535 or uniform) between messages; the peer's wire record is parsed by an independent header codec; non-trivial = message longer than one packet body or a size change took effect; distinct = distinct (packet size, boundary class d, m, split, channel kind)"
 }
 func (c01) Components() map[string]string {
 	return map[string]string{"tds (Channel.QueuePackage/SendRemainingPackets/SendPackage, PacketQueue, Packet, header writer)": "real (rewritten)", "transport": "stub: simrt.Conn records every Write", "server": "stub: sim/peer independent header codec and assembler; announces packet sizes via ENVCHANGE", "clock": "simulated (quiescence delimits messages)"}
@@ -122,6 +126,9 @@ func (c01) Gen(r *Rand, idx int, tier string) interface{} {
 		}
 		m.HeaderType = 1 + r.Intn(23)
 		m.OnZero = p.Both && r.Bool()
+		if r.Pct(15) {
+			m.Abort = 1 + r.Intn(body-1)
+		}
 		if len(m.Pkgs) == 1 && r.Pct(60) {
 			m.Split = "send"
 		} else if r.Pct(50) {
@@ -173,6 +180,12 @@ func (c01) Shrink(plan interface{}) []interface{} {
 			q := *p
 			q.Msgs = append([]c01Msg{}, p.Msgs...)
 			q.Msgs[i].NextSize = 0
+			out = append(out, &q)
+		}
+		if m.Abort > 1 {
+			q := *p
+			q.Msgs = append([]c01Msg{}, p.Msgs...)
+			q.Msgs[i].Abort = 1
 			out = append(out, &q)
 		}
 		if m.HeaderType != 15 {
@@ -273,7 +286,7 @@ func (c01) Run(plan interface{}, schedSeed uint64, replay []simrt.Choice, lenien
 	type msgMark struct{ start, end int }
 	marks := make([]msgMark, len(p.Msgs))
 	var setupErr string
-	var sendErrs []string
+	var sendErrs, aborted []string
 	sizesSeen := make([]int, len(p.Msgs))
 	out := s.Run(func() {
 		conn, err := tds.NewConn(context.Background(), MkInfo(100, 5, false))
@@ -307,6 +320,18 @@ func (c01) Run(plan interface{}, schedSeed uint64, replay []simrt.Choice, lenien
 			}
 			ch.CurrentHeaderType = tds.PacketHeaderType(m.HeaderType)
 			var err error
+			if m.Abort > 0 {
+				dead, kill := simrt.WithCancel(context.Background())
+				kill()
+				t := tds.NewTokenlessPackage()
+				t.Data = bytes.NewBuffer(bytes.Repeat([]byte{0x5a}, m.Abort))
+				if err := ch.QueuePackage(ctx, t); err != nil {
+					sendErrs = append(sendErrs, fmt.Sprintf("message %d: queueing the package to be abandoned: %v", mi, err))
+				} else if err := ch.SendRemainingPackets(dead); err == nil {
+					aborted = append(aborted, fmt.Sprintf("message %d: a flush with a cancelled context reported success", mi))
+				}
+				ch.CurrentHeaderType = tds.PacketHeaderType(m.HeaderType)
+			}
 			for pi, pk := range m.Pkgs {
 				pkg := c01Package(mi, pi, pk)
 				last := pi == len(m.Pkgs)-1
@@ -358,6 +383,9 @@ func (c01) Run(plan interface{}, schedSeed uint64, replay []simrt.Choice, lenien
 	for _, e := range sendErrs {
 		v.Violate("send-error", "send returned an error", "%s", e)
 	}
+	for _, e := range aborted {
+		v.Violate("cancelled-flush", "flush with cancelled context succeeded", "%s", e)
+	}
 	nontrivial := ""
 	ps := 512
 	expectNr := -1
@@ -385,7 +413,7 @@ func (c01) Run(plan interface{}, schedSeed uint64, replay []simrt.Choice, lenien
 		if d >= -2 && d <= 2 {
 			cls = fmt.Sprintf("d=%+d", d)
 		}
-		where := fmt.Sprintf("message %d (total %d bytes = %d*%d%+d, packet size %d, header type %d, split %s, packages %v)", mi, T, (T+body/2)/body, body, d, ps, m.HeaderType, m.Split, m.Pkgs)
+		where := fmt.Sprintf("message %d (total %d bytes = %d*%d%+d, packet size %d, header type %d, split %s, packages %v, abandoned before: %d bytes)", mi, T, (T+body/2)/body, body, d, ps, m.HeaderType, m.Split, m.Pkgs, m.Abort)
 		sigB := "boundary " + cls
 		if sizesSeen[mi] != ps {
 			v.Violate("packet-size", "announced packet size not in force", "%s: the client's packet size is %d, the server announced %d", where, sizesSeen[mi], ps)
